@@ -42,6 +42,7 @@ type Aux struct {
 // then the directory {adapter_config.json, adapter_model.safetensors} is sent as `adapters`.
 type Adapter struct {
 	Base    c10gen.Case `json:"base"`
+	HFBase  bool        `json:"hf_base,omitempty"` // the base is the (unmutated) model directory of the case, sent as `files`, instead of a GGUF
 	ViaFrom bool        `json:"via_from"` // base created as a model first and named with `from`; otherwise sent as `files` of the same request
 	Rank    int         `json:"rank"`
 	Style   string      `json:"style"`   // peft (lora_A [r,in], lora_B [out,r]) | mlx (lora_a [in,r], lora_b [r,out])
@@ -104,7 +105,7 @@ var offVals = []string{"reversed", "beyond", "beyond1", "huge", "huge63", "neg",
 
 var dtypeVals = []string{"empty", "I8", "I32", "I64", "F64", "BOOL", "U8", "F8_E4M3", "f32", "num", "null", "missing", "arr", "swap", "swap"}
 
-var shapeVals = []string{"zero", "allzero", "huge", "huge63", "max", "over", "neg", "plus1", "minus1", "flat", "rank3", "rank4", "rank5", "empty",
+var shapeVals = []string{"zerofit", "halffit", "zero", "allzero", "huge", "huge63", "max", "over", "neg", "plus1", "minus1", "flat", "rank3", "rank4", "rank5", "empty",
 	"scalar", "str", "float", "frac", "null", "missing", "swap", "half"}
 
 var nameVals = []string{"drop", "dup", "alias", "empty", "unexpected", "ggufname", "expert", "expertonly", "long", "unicode", "ropefreqs",
@@ -157,6 +158,8 @@ var addedJSONVals = []string{"neg", "gap", "collide", "dupsame", "nonint", "floa
 
 var acfgKeys = []string{"r", "lora_alpha", "lora_parameters", "lora_parameters.rank", "lora_parameters.alpha", "lora_parameters.scale", "lora_layers",
 	"num_attention_heads", "num_key_value_heads", "target_modules", "peft_type"}
+
+var modVals = []string{"pathup", "pathabs", "pathmissing", "pathempty", "pathdot", "notlist", "typesnum", "nopooling", "twopooling", "null", "notjson", "empty"}
 
 var dirOps = []string{"drop", "drop", "rename", "rename", "empty", "torch", "dupname", "extra", "swap", "torchonly", "subdir"}
 
@@ -258,6 +261,7 @@ func Gen(t *rapid.T) Case {
 		a := &Adapter{}
 		a.Base = genBase(t)
 		a.ViaFrom = rapid.Bool().Draw(t, "viafrom")
+		a.HFBase = rapid.IntRange(0, 3).Draw(t, "hfbase") == 3
 		a.Rank = rapid.SampledFrom([]int{2, 1, 4, 8}).Draw(t, "rank")
 		a.Style = pick(t, "style", []string{"peft", "peft", "mlx"})
 		all := []string{"self_attn.q_proj", "self_attn.k_proj", "self_attn.v_proj", "self_attn.o_proj", "mlp.gate_proj", "mlp.down_proj", "mlp.up_proj"}
@@ -282,7 +286,7 @@ func Gen(t *rapid.T) Case {
 
 func genMut(t *rapid.T, adapter bool) Mut {
 	var m Mut
-	files := []string{"st", "st", "st", "st", "st", "st", "cfg", "cfg", "cfg", "cfg", "tok", "tok", "tok", "spm", "spm", "tokcfg", "stmap", "added", "dir", "dir"}
+	files := []string{"st", "st", "st", "st", "st", "st", "cfg", "cfg", "cfg", "cfg", "tok", "tok", "tok", "spm", "spm", "tokcfg", "stmap", "added", "dir", "dir", "mod"}
 	if adapter {
 		files = []string{"st", "st", "st", "st", "st", "st", "acfg", "acfg", "acfg", "dir"}
 	}
@@ -379,6 +383,9 @@ func genMut(t *rapid.T, adapter bool) Mut {
 			m.Key = pick(t, "key", acfgKeys)
 			m.Val = pick(t, "val", cfgVals)
 		}
+	case "mod":
+		m.Op = "set"
+		m.Val = pick(t, "val", modVals)
 	case "dir":
 		m.Op = pick(t, "dirop", dirOps)
 		m.Key = pick(t, "kind", dirKinds)
